@@ -270,7 +270,9 @@ func Serialize(r *rand.Rand, nodes []*Node, noise int) string {
 					b.WriteString(`="` + noisyText(r, v, noise, true, '"') + `"`)
 				case q < 7:
 					b.WriteString(`='` + noisyText(r, v, noise, true, '\'') + `'`)
-				case q < 9:
+				case q < 9 && !strings.HasSuffix(v, "/"):
+					// (an unquoted value ending in "/" right before ">" is read by
+					// x/net/html as a self-closing tag)
 					if v == "" {
 						b.WriteString(`=""`)
 					} else {
